@@ -141,7 +141,7 @@ pub fn run(ctx: &Ctx) -> i32 {
     });
     // random forests: wide and deep
     let nrand = ctx.tier.pick(300u64, 6000u64);
-    let rnd = run_cases(ctx, nrand, |i| {
+    let rnd = run_stage(ctx, "random-forests", nrand, |i| {
         let mut rng = Rng::derive(ctx.seed, "C09", i);
         let n = match i % 4 {
             0 => rng.range(9, 40),
